@@ -601,3 +601,99 @@ func withLoopHeaders(events []ssa.Instruction, notContaining ssa.Instruction) []
 	}
 	return out
 }
+
+// ifPos gives a usable position for an If (the SSA instruction itself has none).
+func ifPos(iff *ssa.If) token.Pos {
+	if p := iff.Cond.Pos(); p.IsValid() {
+		return p
+	}
+	for i := len(iff.Block().Instrs) - 1; i >= 0; i-- {
+		if p := iff.Block().Instrs[i].Pos(); p.IsValid() {
+			return p
+		}
+	}
+	return token.NoPos
+}
+
+// errOf returns the call whose error result v is (directly or via Extract of the last result).
+func errOf(v ssa.Value) *ssa.Call {
+	switch x := v.(type) {
+	case *ssa.Call:
+		if resultIsErrorSig(x.Call.Signature()) && x.Call.Signature().Results().Len() == 1 {
+			return x
+		}
+	case *ssa.Extract:
+		if c, ok := x.Tuple.(*ssa.Call); ok {
+			sig := c.Call.Signature()
+			if x.Index == sig.Results().Len()-1 && resultIsErrorSig(sig) {
+				return c
+			}
+		}
+	case *ssa.Phi:
+		// `err` variable merged from one call only
+		var only *ssa.Call
+		for _, e := range x.Edges {
+			c := errOf(e)
+			if c == nil {
+				if k, ok := e.(*ssa.Const); ok && k.IsNil() {
+					continue
+				}
+				return nil
+			}
+			if only != nil && only != c {
+				return nil
+			}
+			only = c
+		}
+		return only
+	}
+	return nil
+}
+
+func resultIsErrorSig(sig *types.Signature) bool {
+	r := sig.Results()
+	if r.Len() == 0 {
+		return false
+	}
+	return types.Identical(r.At(r.Len()-1).Type(), types.Universe.Lookup("error").Type())
+}
+
+// errNilEdge: on this edge the error result of a call matching pred is nil (want=true) / non-nil.
+func errNilEdge(pred func(call *ssa.Call) bool, wantNil bool) EdgePred {
+	return func(iff *ssa.If, br int) bool {
+		r, ok := edgeRel(iff, br)
+		if !ok || (r.Op != token.EQL && r.Op != token.NEQ) {
+			return false
+		}
+		var x ssa.Value
+		if isNilConst(r.Y) {
+			x = r.X
+		} else if isNilConst(r.X) {
+			x = r.Y
+		} else {
+			return false
+		}
+		call := errOf(x)
+		if call == nil || !pred(call) {
+			return false
+		}
+		return (r.Op == token.EQL) == wantNil
+	}
+}
+
+func callNamed(names ...string) func(*ssa.Call) bool {
+	return func(c *ssa.Call) bool {
+		n := calleeShort(&c.Call)
+		for _, w := range names {
+			if n == w {
+				return true
+			}
+		}
+		return false
+	}
+}
+
+// sameCall matches exactly this call instruction.
+func sameCall(want *ssa.Call) func(*ssa.Call) bool {
+	return func(c *ssa.Call) bool { return c == want }
+}
